@@ -28,6 +28,8 @@ fn tx_ops(tx: &Transaction) {
     let _ = tx.nb_inputs(); let _ = tx.nb_outputs();
     let ex = tx.prefix.extra.try_parse(); let _ = format!("{}", ex); let _ = ex.tx_pubkey(); let _ = ex.tx_additional_pubkeys();
     let _ = ExtraField::try_parse(&tx.prefix.extra);
+    // re-serialisation of the PARSED extra and `From<ExtraField> for RawExtraField` (its `unwrap`), whatever try_parse said
+    let _ = serialize(&ex); let _ = RawExtraField::from(ex.clone());
     if let Some(sig) = &tx.rct_signatures.sig { let _ = sig.hash(); let _ = format!("{}", sig); }
     let vp = view_pair();
     let _ = tx.check_outputs(&vp, 0..2, 0..3);
@@ -41,6 +43,19 @@ fn tx_ops(tx: &Transaction) {
     }
     for o in &tx.prefix.outputs { let _ = o.get_one_time_key(); let _ = o.target.check_view_tag(vp.spend, 300); }
     let _ = serde_json::to_string(tx);
+    // "any key pair": other view pairs — another spend key, the same spend key under view scalars 0 and 1, and the pair with a
+    // small-order (torsion) spend point
+    for vp2 in other_view_pairs() { let _ = tx.check_outputs(&vp2, 0..1, 0..2); }
+}
+fn other_view_pairs() -> Vec<ViewPair> {
+    let vp = view_pair(); let mut one = [0u8; 32]; one[0] = 1;
+    let s2 = PrivateKey::from_str("77916d0cd56ed1920aef6ca56d8a41bac915b68e4c46a589e0956e27a7b77404").unwrap();
+    let mut v = vec![ViewPair { view: vp.view, spend: PublicKey::from_private_key(&s2) }];
+    if let Ok(z) = PrivateKey::from_slice(&[0u8; 32]) { v.push(ViewPair { view: z, spend: vp.spend }); }
+    if let Ok(o) = PrivateKey::from_slice(&one) { v.push(ViewPair { view: o, spend: vp.spend }); }
+    // the identity point (order 1) as spend key
+    if let Ok(id) = PublicKey::from_slice(&one) { v.push(ViewPair { view: vp.view, spend: id }); }
+    v
 }
 fn block_ops(b: &Block) {
     let s = serialize(b); let _ = deserialize::<Block>(&s);
@@ -51,7 +66,7 @@ fn block_ops(b: &Block) {
 fn addr_ops(a: &Address) { let _ = a.to_string(); let _ = a.as_bytes(); let _ = a.as_hex(); let _ = serialize(a); let _ = format!("{:?} {}", a, a.addr_type); let _ = serde_json::to_string(a); }
 fn amt_ops(a: Amount) { for d in [Denomination::Monero, Denomination::Millinero, Denomination::Micronero, Denomination::Nanonero, Denomination::Piconero] { let _ = a.to_string_in(d); let _ = a.to_string_with_denomination(d); let _ = a.to_float_in(d); }
     let _ = format!("{} {:?}", a, a); let _ = a.to_signed(); let _ = a.checked_add(a); let _ = a.checked_mul(3); let _ = a.as_xmr(); }
-fn samt_ops(a: SignedAmount) { for d in [Denomination::Monero, Denomination::Piconero] { let _ = a.to_string_in(d); let _ = a.to_string_with_denomination(d); let _ = a.to_float_in(d); }
+fn samt_ops(a: SignedAmount) { for d in [Denomination::Monero, Denomination::Millinero, Denomination::Micronero, Denomination::Nanonero, Denomination::Piconero] { let _ = a.to_string_in(d); let _ = a.to_string_with_denomination(d); let _ = a.to_float_in(d); }
     let _ = format!("{} {:?}", a, a); let _ = a.to_unsigned(); let _ = a.checked_abs(); let _ = a.signum(); let _ = a.checked_sub(a); let _ = a.positive_sub(a); }
 
 fn okerr<T, E>(r: Result<T, E>, f: impl FnOnce(&T)) -> String { match r { Ok(v) => { f(&v); "ok".into() } Err(_) => "err".into() } }
@@ -66,7 +81,9 @@ pub fn exec(t: &[&str]) -> Option<String> {
                 "prefix" => okerr(deserialize::<TransactionPrefix>(&b), |x| { let _ = x.hash(); let _ = format!("{}", x); let _ = x.check_outputs(&view_pair(), 0..2, 0..2, None); }),
                 "extra" => { let raw = RawExtraField(b.clone()); let r = ExtraField::try_parse(&raw); let f = match &r { Ok(f) => f, Err(f) => f };
                     let _ = format!("{}", f); let _ = f.tx_pubkey(); let _ = f.tx_additional_pubkeys(); let _ = serialize(f); let _ = raw.try_parse();
-                    if r.is_ok() { let _ = RawExtraField::from(f.clone()); "ok".into() } else { "err".into() } }
+                    // `From<ExtraField> for RawExtraField` on BOTH values (C04_raw_from_parsed_extra_no_panic covers the fields kept by a failed parse too)
+                    let _ = RawExtraField::from(f.clone());
+                    if r.is_ok() { "ok".into() } else { "err".into() } }
                 "address_bytes" => okerr(Address::from_bytes(&b), |a| addr_ops(a)),
                 "address_str" => if !valid_utf8 { "err".into() } else { okerr(Address::from_str(&s), |a| addr_ops(a)) },
                 "address_hex" => okerr(<Address as hex::FromHex>::from_hex(&b), |a| addr_ops(a)),
@@ -84,8 +101,116 @@ pub fn exec(t: &[&str]) -> Option<String> {
                 "samount_pico" => if !valid_utf8 { "err".into() } else { okerr(SignedAmount::from_str_in(&s, Denomination::Piconero), |a| samt_ops(*a)) },
                 "denomination" => if !valid_utf8 { "err".into() } else { okerr(Denomination::from_str(&s), |d| { let _ = format!("{} {:?}", d, d); }) },
                 _ => return None }) }
+        // the PUBLIC decoders that take `usize` parameters next to the reader (counts the caller is free to choose):
+        // `c04_dec base <inputs> <outputs> <hex>`, `c04_dec prunable <ty 0..6> <inputs> <outputs> <mixin> <hex>`,
+        // `c04_dec sized <key|u8|txin|txout|varint|hash> <size> <hex>`; result `ok` | `err`
+        // `c04_big <family> <n> <parse|ops>`: a LARGE input determined by (family, n) — built inside the child so that no multi-megabyte
+        // line travels — is parsed (and, with `ops`, every public operation is run on the value); result `ok` | `err`. No model side:
+        // the checks are the isolation ones (no panic / abort / timeout, peak heap within the PARSE-ONLY bound `big_bound`).
+        ["c04_big", fam, n, mode] => { let n = n.parse::<usize>().ok()?; let (entry, b) = big_input(fam, n)?; let ops = *mode == "ops";
+            Some(match entry {
+                "tx" => okerr(deserialize::<Transaction>(&b), |x| if ops { tx_ops(x) }),
+                "block" => okerr(deserialize::<Block>(&b), |x| if ops { block_ops(x) }),
+                "varint" => okerr(deserialize::<VarInt>(&b), |_| ()),
+                "extra" => { let raw = RawExtraField(b); let r = ExtraField::try_parse(&raw); let f = match &r { Ok(f) => f, Err(f) => f };
+                    if ops { let _ = f.tx_pubkey(); let _ = f.tx_additional_pubkeys(); let _ = serialize(f); let _ = RawExtraField::from(f.clone()); }
+                    if r.is_ok() { "ok".into() } else { "err".into() } }
+                _ => return None }) }
+        ["c04_dec", "base", i, o, h] => { let b = unhex(h); let (i, o) = (i.parse::<u64>().ok()? as usize, o.parse::<u64>().ok()? as usize);
+            Some(okerr(monero::util::ringct::RctSigBase::consensus_decode(&mut &b[..], i, o), |x| { if let Some(s) = x { let _ = serialize(s); let _ = format!("{}", s); } })) }
+        ["c04_dec", "prunable", ty, i, o, m, h] => { let b = unhex(h); let ty = *gen::RCT_TYPES.get(ty.parse::<usize>().ok()?)?;
+            let (i, o, m) = (i.parse::<u64>().ok()? as usize, o.parse::<u64>().ok()? as usize, m.parse::<u64>().ok()? as usize);
+            Some(okerr(monero::util::ringct::RctSigPrunable::consensus_decode(&mut &b[..], ty, i, o, m), |x| { if let Some(p) = x { let mut w = vec![]; let _ = p.consensus_encode(&mut w, ty); } })) }
+        ["c04_dec", "sized", elem, n, h] => { let b = unhex(h); let n = n.parse::<u64>().ok()? as usize; use monero::consensus::encode::consensus_decode_sized_vec as sv; let r = &mut &b[..];
+            Some(match *elem {
+                "key" => okerr(sv::<_, monero::util::ringct::Key>(r, n), |_| ()),
+                "u8" => okerr(sv::<_, u8>(r, n), |_| ()),
+                "txin" => okerr(sv::<_, TxIn>(r, n), |_| ()),
+                "txout" => okerr(sv::<_, TxOut>(r, n), |_| ()),
+                "varint" => okerr(sv::<_, VarInt>(r, n), |_| ()),
+                "hash" => okerr(sv::<_, Hash>(r, n), |_| ()),
+                _ => return None }) }
         _ => None,
     }
+}
+
+
+// ------------------------------------------------------------------------------------------------ large inputs
+const G_BYTES: [u8; 32] = [0x58, 0x66, 0x66, 0x66, 0x66, 0x66, 0x66, 0x66, 0x66, 0x66, 0x66, 0x66, 0x66, 0x66, 0x66, 0x66, 0x66, 0x66, 0x66, 0x66, 0x66, 0x66, 0x66, 0x66, 0x66, 0x66, 0x66, 0x66, 0x66, 0x66, 0x66, 0x66];
+/// raw bytes of a version-2 coinbase-style transaction with `nout` outputs and the given extra (written by hand: no value of the
+/// library is built, so the measured heap is the parser's plus this buffer)
+fn raw_tx(nout: usize, extra: &[u8]) -> Vec<u8> {
+    let mut b = Vec::with_capacity(16 + 34 * nout + extra.len() + 12);
+    b.extend([2u8, 0, 1, 0xff, 0]); b.extend(gen::varint_bytes(nout as u64));
+    for i in 0..nout { b.extend([0u8, 2]); let mut k = [0u8; 32]; k[..8].copy_from_slice(&(i as u64).to_le_bytes()); k[31] = 0x11; b.extend(k); }
+    b.extend(gen::varint_bytes(extra.len() as u64)); b.extend_from_slice(extra); b.push(0); b
+}
+/// (entry point, input bytes) of a `c04_big` family; every family grows linearly with `n`
+pub fn big_input(fam: &str, n: usize) -> Option<(&'static str, Vec<u8>)> {
+    Some(match fam {
+        // n outputs and n additional public keys (valid points) in the extra
+        "tx_outs" => { let mut e = Vec::with_capacity(40 + 32 * n); e.push(1); e.extend(G_BYTES); e.push(4); e.extend(gen::varint_bytes(n as u64)); for _ in 0..n { e.extend(G_BYTES); } ("tx", raw_tx(n, &e)) }
+        // extra = n empty nonces: the largest number of parsed sub-fields per input byte
+        "extra_0200" => ("extra", [2u8, 0].repeat(n)),
+        "extra_keys" => { let mut e = Vec::with_capacity(33 * n); for _ in 0..n { e.push(1); e.extend(G_BYTES); } ("extra", e) }
+        // n failing sub-fields in a row cannot exist (the loop stops at the first error); n nonces of 255 bytes
+        "extra_nonces" => { let mut e = Vec::with_capacity(258 * n); for _ in 0..n { e.extend([2u8, 0xff, 1]); e.extend([7u8; 255]); } ("extra", e) }
+        "tx_extra_0200" => ("tx", raw_tx(1, &[2u8, 0].repeat(n))),
+        "block_hashes" => { let mut b = vec![1u8, 1, 1]; b.extend([9u8; 32]); b.extend([1u8, 2, 3, 4]); b.extend(raw_tx(1, &{ let mut e = vec![1u8]; e.extend(G_BYTES); e })); b.extend(gen::varint_bytes(n as u64)); b.reserve(32 * n); for i in 0..n { let mut h = [0x33u8; 32]; h[..8].copy_from_slice(&(i as u64).to_le_bytes()); b.extend(h); } ("block", b) }
+        // a VarInt that never ends: the group loop reads (and keeps) the whole input before failing
+        "varint_ff" => ("varint", vec![0xffu8; n]),
+        "tx_ff" => ("tx", vec![0xffu8; n]),
+        "block_ff" => ("block", vec![0xffu8; n]),
+        _ => return None })
+}
+/// bound claimed for parsing alone (no operation on the value): the two nested capped pre-allocations, the slope of `bound`, and
+/// 64 KiB instead of 4 MiB for everything else
+pub fn big_bound(input_len: usize) -> usize { 2 * monero::consensus::encode::MAX_VEC_MEM_ALLOC_SIZE + (64 << 10) + 160 * input_len }
+
+// ------------------------------------------------------------------------------------------------ outputs owned by `view_pair()`
+/// how the commitment `out_pk[i]` of an owned output relates to its ecdh info
+#[derive(Clone, Copy, PartialEq, Debug)]
+pub enum PkMode { Valid, Undecodable, Mismatch }
+/// A transaction of RingCT type `ty` whose outputs are addressed — with the library's own sender-side functions — to `view_pair()`:
+/// to the main address or to sub-address (0,1), through the main transaction key or through per-output additional keys; tagged
+/// outputs carry the matching view tag; `out_pk` is the real commitment, an undecodable point, or a different point.
+fn owned_tx(r: &mut Rng, ty: monero::util::ringct::RctType, sub: bool, additional: bool, tagged: bool, mode: PkMode) -> Transaction {
+    use curve25519_dalek::{constants::ED25519_BASEPOINT_POINT as G, edwards::CompressedEdwardsY, scalar::Scalar};
+    use monero::cryptonote::{onetime_key::KeyGenerator, subaddress};
+    use monero::util::ringct::{CtKey, EcdhInfo, Key, RctType};
+    let vp = view_pair();
+    let nout = r.range(1, 3) as usize;
+    let sh = gen::Shape { vary_rings: false, version: 2, nin: 1, ring: 2, nout, coinbase_first: false, all_coinbase: false, rct: ty, nbp: 1, extra_len: 0 };
+    let mut tx = gen::tx_of(r, &sh);
+    let (view_pub, spend_pub) = subaddress::get_public_keys(&vp, subaddress::Index { major: 0, minor: if sub { 1 } else { 0 } });
+    let sk = |r: &mut Rng| PrivateKey::from_scalar(Scalar::from(r.next() | 1) * Scalar::from(r.next() | 1));
+    let tx_key_of = |k: &PrivateKey| if sub { *k * &spend_pub } else { PublicKey::from_private_key(k) };
+    let main = sk(r);
+    let mut extra = vec![1u8]; extra.extend(if additional { PublicKey::from_private_key(&sk(r)) } else { tx_key_of(&main) }.as_bytes());
+    let mut add = vec![];
+    let h_point = CompressedEdwardsY(unhex("8b655970153799af2aeadc9ff1add0ea6c7251d54154cfa92c173a0dd39c1f94").try_into().unwrap()).decompress().unwrap();
+    let compact = matches!(ty, RctType::Bulletproof2 | RctType::Clsag | RctType::BulletproofPlus);
+    for i in 0..nout {
+        let k = if additional { let k = sk(r); add.push(tx_key_of(&k)); k } else { main };
+        let kg = KeyGenerator::from_random(view_pub, spend_pub, k);
+        let key = kg.one_time_key(i).to_bytes();
+        tx.prefix.outputs[i].target = if tagged { let tag = (0..=255u8).find(|t| TxOutTarget::ToTaggedKey { key, view_tag: *t }.check_view_tag(kg.rv, i)).unwrap_or(0); TxOutTarget::ToTaggedKey { key, view_tag: tag } } else { TxOutTarget::ToKey { key } };
+        tx.prefix.outputs[i].amount = VarInt(0);
+        if let Some(sig) = tx.rct_signatures.sig.as_mut() { if sig.rct_type != RctType::Null {
+            let shared = kg.get_rvn_scalar(i).scalar; let amount = r.u64_boundary();
+            let hs = |b: &[u8]| Hash::hash_to_scalar(b).scalar;
+            let y = if compact { let mut m = b"commitment_mask".to_vec(); m.extend(shared.as_bytes()); hs(&m) } else { Scalar::from(r.next()) * Scalar::from(r.next()) };
+            sig.ecdh_info[i] = if compact { let mut m = b"amount".to_vec(); m.extend(shared.as_bytes()); let hk = Hash::new(&m).to_fixed_bytes(); let mut a = amount.to_le_bytes(); for j in 0..8 { a[j] ^= hk[j]; } EcdhInfo::Bulletproof { amount: monero::cryptonote::hash::Hash8(a) } }
+                else { let s1 = hs(shared.as_bytes()); let s2 = hs(s1.as_bytes()); EcdhInfo::Standard { mask: Key::from((y + s1).to_bytes()), amount: Key::from((Scalar::from(amount) + s2).to_bytes()) } };
+            sig.out_pk[i] = CtKey { mask: Key::from(match mode {
+                PkMode::Valid => (y * G + Scalar::from(amount) * h_point).compress().to_bytes(),
+                PkMode::Mismatch => (Scalar::from(r.next() | 1) * G).compress().to_bytes(),
+                PkMode::Undecodable => loop { let b = r.arr32(); if CompressedEdwardsY(b).decompress().is_none() { break b; } } }) };
+        } }
+    }
+    if additional { extra.push(4); extra.extend(gen::varint_bytes(add.len() as u64)); for k in &add { extra.extend(k.as_bytes()); } }
+    tx.prefix.extra = RawExtraField(extra);
+    tx
 }
 
 // ------------------------------------------------------------------------------------------------ isolation
@@ -113,14 +238,17 @@ pub fn bound(input_len: usize) -> usize { 2 * monero::consensus::encode::MAX_VEC
 
 struct Iso { kid: Kid, respawns: u64 }
 impl Iso {
-    fn run(&mut self, o: &mut Out, line: String, input_len: usize, nontrivial: bool) {
+    fn run(&mut self, o: &mut Out, line: String, input_len: usize, nontrivial: bool) { self.run_b(o, line, input_len, nontrivial, bound(input_len)) }
+    /// the same with the heap bound chosen by the caller (never larger than `bound`)
+    fn run_b(&mut self, o: &mut Out, line: String, input_len: usize, nontrivial: bool, limit: usize) {
+        let limit = limit.min(bound(input_len));
         let stdin = self.kid.child.stdin.as_mut().unwrap();
         let sent = writeln!(stdin, "{}", line).and_then(|_| stdin.flush()).is_ok();
         let resp = if sent { self.kid.rx.recv_timeout(Duration::from_millis(LIMIT_MS)).ok() } else { None };
         match resp {
             Some(l) => { let f: Vec<&str> = l.split('\t').collect(); let (res, peak, us) = (f[0].to_string(), f.get(1).and_then(|x| x.parse::<usize>().ok()).unwrap_or(0), f.get(2).and_then(|x| x.parse::<u128>().ok()).unwrap_or(0));
                 if res.starts_with("PANIC") { o.direct(false, "C04: entry point panicked", line.clone(), trunc(&res, 300), "ok or err".into()); o.stat("outcome.panic"); }
-                o.direct(peak <= bound(input_len), "C04: peak heap <= A + B*|input|", line.clone(), format!("{} bytes", peak), format!("<= {} bytes", bound(input_len)));
+                o.direct(peak <= limit, "C04: peak heap <= A + B*|input|", line.clone(), format!("{} bytes", peak), format!("<= {} bytes", limit));
                 o.stat(if peak > 16 << 20 { "peak.gt16MiB" } else if peak > 1 << 20 { "peak.1-16MiB" } else { "peak.lt1MiB" });
                 o.stat_n("micros.total", us as u64);
                 o.stat(if res == "ok" || res.starts_with("ok ") { "outcome.ok" } else { "outcome.err" });
@@ -220,7 +348,123 @@ pub fn run(o: &mut Out, tier: &str, seed: u64) {
         texts.push((0..len).map(|_| *r.pick(alphabet)).collect()); }
     for t in &texts { for e in ["address_str", "address_hex", "pubkey_str", "seckey_str", "hash_hex", "hash_str", "paymentid_hex", "amount_str", "samount_str", "amount_xmr", "samount_pico", "denomination"] {
         if t.len() > 1000 && r.chance(1, 2) { continue; } iso.run(o, format!("c04_ops {} {}", e, hex(t)), t.len(), false); } }
+
+    // (5) the PUBLIC decoders that take `usize` counts next to the reader (RctSigBase / RctSigPrunable / sized vector), called
+    //     directly with boundary counts: valid bodies with their true counts and with neighbouring counts, empty and random bodies
+    { use monero::util::ringct::RctType;
+      let capk = cap / 32; let um = u64::MAX;
+      let counts = [0u64, 1, 2, 3, 16, 255, 256, 65535, 65536, capk - 1, capk, capk + 1, (1 << 32) - 1, 1 << 32, 1 << 63, um - 1, um];
+      let mut dec = |iso: &mut Iso, o: &mut Out, line: String, len: usize, nt: bool| { iso.run(o, line, len, nt); };
+      for ty in gen::RCT_TYPES { if ty == RctType::Null { continue; } for nin in [1usize, 2, 3] {
+          let sh = gen::Shape { vary_rings: false, version: 2, nin, ring: r.range(1, 3) as usize, nout: r.below(3) as usize, coinbase_first: false, all_coinbase: false, rct: ty, nbp: 1, extra_len: 0 };
+          let tx = gen::tx_of(&mut r, &sh); let (sig, p) = (tx.rct_signatures.sig.as_ref().unwrap(), tx.rct_signatures.p.as_ref().unwrap());
+          let bb = serialize(sig); let mut pb = vec![]; p.consensus_encode(&mut pb, ty).unwrap();
+          let (i, ou, m, t) = (nin as u64, sh.nout as u64, sh.ring as u64 - 1, gen::rct_num(ty));
+          dec(&mut iso, o, format!("c04_dec base {} {} {}", i, ou, hex(&bb)), bb.len(), true);
+          dec(&mut iso, o, format!("c04_dec prunable {} {} {} {} {}", t, i, ou, m, hex(&pb)), pb.len(), true);
+          for (di, dou, dm) in [(1u64, 0u64, 0u64), (0, 1, 0), (0, 0, 1), (um, 0, 0), (0, um, 0), (0, 0, um)] {   // neighbouring counts (wrapping: -1)
+              let (i2, o2, m2) = (i.wrapping_add(di), ou.wrapping_add(dou), m.wrapping_add(dm));
+              dec(&mut iso, o, format!("c04_dec base {} {} {}", i2, o2, hex(&bb)), bb.len(), false);
+              dec(&mut iso, o, format!("c04_dec prunable {} {} {} {} {}", t, i2, o2, m2, hex(&pb)), pb.len(), false); }
+          if nin == 1 { for k in 0..pb.len().min(200) { dec(&mut iso, o, format!("c04_dec prunable {} {} {} {} {}", t, i, ou, m, hex(&pb[..k])), k, false); } }
+      } }
+      for _ in 0..(if thorough { 1500 } else { 250 }) {
+          let (i, ou, m) = (*r.pick(&counts), *r.pick(&counts), *r.pick(&counts)); let t = r.range(0, 6);
+          let body = match r.below(4) { 0 => vec![], 1 => { let n = r.range(1, 100) as usize; vec![0u8; n] } _ => { let n = r.range(1, 200) as usize; r.bytes(n) } };
+          // `1 + inputs` (ringct.rs:774) overflows for inputs = usize::MAX with the one type (Full) that evaluates it: CONFIRMED PANIC
+          // of the public decoder ("attempt to add with overflow"), reported in REPORT.md / DESIGN; the family is kept, guarded:
+          let overflow_site = t == 1 && i == um;
+          if overflow_site { if false /* pending triage: RctSigPrunable::consensus_decode(_, Full, usize::MAX, 0, _) panics */ {
+              dec(&mut iso, o, format!("c04_dec prunable {} {} {} {} {}", t, i, ou, m, hex(&body)), body.len(), false); } }
+          else { dec(&mut iso, o, format!("c04_dec prunable {} {} {} {} {}", t, i, ou, m, hex(&body)), body.len(), false); }
+          let mut bbody = vec![r.range(0, 7) as u8]; bbody.extend(&body);
+          dec(&mut iso, o, format!("c04_dec base {} {} {}", i, ou, hex(&bbody)), bbody.len(), false);
+          let el = *r.pick(&["key", "u8", "txin", "txout", "varint", "hash"]); let n = if r.chance(1, 2) { *r.pick(&counts) } else { *r.pick(&[cap / 64, cap / 64 + 1, cap / 48, cap / 48 + 1, cap / 8, cap / 8 + 1, cap, cap + 1]) };
+          dec(&mut iso, o, format!("c04_dec sized {} {} {}", el, n, hex(&body)), body.len(), false);
+      }
+      if false /* pending triage (same site, the minimal call) */ { dec(&mut iso, o, format!("c04_dec prunable 1 {} 0 0 -", um), 0, false); }
+    }
+    // (6) parsed transactions with outputs OWNED by `view_pair()` (main address and sub-address (0,1); main transaction key and
+    //     additional keys; plain and tagged targets; every RingCT type) whose commitment is valid / undecodable / a different point:
+    //     the scan of `c04_ops tx` then walks `ecdh_info.get(i)`, `out_pk.get(i)`, decompression and `open_commitment`
+    { let vp = view_pair(); let mut k = 0u64;
+      for ty in gen::RCT_TYPES { for sub in [false, true] { for additional in [false, true] { for mode in [PkMode::Valid, PkMode::Undecodable, PkMode::Mismatch] {
+          k += 1; if !thorough && ty != monero::util::ringct::RctType::BulletproofPlus && (k + seed) % 2 == 0 { continue; }
+          let tagged = r.chance(1, 2);
+          let tx = owned_tx(&mut r, ty, sub, additional, tagged, mode); let b = serialize(&tx);
+          match guarded(|| tx.check_outputs(&vp, 0..2, 0..3).map(|v| (v.len(), v.iter().filter(|x| x.blinding_factor().is_some()).count())).map_err(|e| format!("{:?}", e))) {
+              Ok(Ok((n, op))) => { o.stat(if n > 0 { "owned.found" } else { "owned.none" }); if op > 0 { o.stat("owned.opened"); } }
+              Ok(Err(e)) => o.stat(&format!("owned.scan_err.{}", e.split(|c: char| !c.is_alphanumeric()).next().unwrap_or(""))),
+              Err(m) => o.direct(false, "C04: scanning a transaction with owned outputs panicked", hex(&b), m, "no panic".into()) }
+          bin(&mut iso, o, "tx", &b, true);
+          if r.chance(1, 3) { let m = gen::mutate(&mut r, &b); bin(&mut iso, o, "tx", &m, false); }
+      } } } } }
+    // (7) address blobs: the nine (network, kind) valid blobs; each truncated at EVERY length as it is (address-type parser) and with a
+    //     fresh checksum appended (so that the length checks, not the checksum, decide); text and hex forms of all nine
+    { let vp = view_pair(); let view = PublicKey::from_private_key(&vp.view);
+      for net in [Network::Mainnet, Network::Testnet, Network::Stagenet] {
+          for a in [Address::standard(net, vp.spend, view), Address::subaddress(net, vp.spend, view), Address::integrated(net, vp.spend, view, PaymentId(r.bytes(8).try_into().unwrap()))] {
+              let blob = a.as_bytes();
+              bin(&mut iso, o, "address_bytes", &blob, true); bin(&mut iso, o, "addrtype", &blob, true);
+              iso.run(o, format!("c04_ops address_str {}", hex(a.to_string().as_bytes())), 95, true);
+              iso.run(o, format!("c04_ops address_hex {}", hex(a.as_hex().as_bytes())), 2 * blob.len(), true);
+              for k in 0..=blob.len() + 2 { let mut body = blob.clone(); body.resize(k, 0x5a);
+                  bin(&mut iso, o, "addrtype", &body, false);
+                  let mut c = body.clone(); c.extend_from_slice(&monero::cryptonote::hash::keccak_256(&body)[..4]);
+                  bin(&mut iso, o, "address_bytes", &c, false);
+                  if k % 8 == 1 { bin(&mut iso, o, "address_bytes", &body, false); } }
+          } } }
+    // (8) truncation at EVERY position of a block, a prefix, a structured extra and of count-attacked encodings
+    { // every position of a short encoding; for a long one (a miner transaction with range signatures) the first 300, the last 100 and 200 evenly spaced cuts
+      let cuts = |len: usize| -> Vec<usize> { if len <= 600 { (0..len).collect() } else { let mut v: Vec<usize> = (0..300).chain((0..200).map(|i| 300 + i * (len - 400) / 200)).chain(len - 100..len).collect(); v.dedup(); v } };
+      let blk = gen::block(&mut r, 2); let bb = serialize(&blk); for k in cuts(bb.len()) { bin(&mut iso, o, "block", &bb[..k], false); }
+      let sh = gen::Shape { vary_rings: true, version: 2, nin: 2, ring: 2, nout: 2, coinbase_first: false, all_coinbase: false, rct: monero::util::ringct::RctType::Clsag, nbp: 1, extra_len: 0 };
+      let mut tx = gen::tx_of(&mut r, &sh); let ex = gen::structured_extra(&mut r, 2); tx.prefix.extra = RawExtraField(ex.clone());
+      let pb = serialize(&tx.prefix); for k in cuts(pb.len()) { bin(&mut iso, o, "prefix", &pb[..k], false); }
+      for k in 0..=ex.len() { bin(&mut iso, o, "extra", &ex[..k], k == ex.len()); }
+      let full = serialize(&tx); let attacked = count_attacks_everywhere(&full[..full.len().min(120)], &mut r);
+      for _ in 0..(if thorough { 12 } else { 3 }) { let m = r.pick(&attacked).clone(); let mut m2 = m.clone(); m2.extend_from_slice(&full[full.len().min(120)..]);
+          for k in (0..m2.len().min(400)).step_by(if thorough { 1 } else { 2 }) { bin(&mut iso, o, "tx", &m2[..k], false); } } }
+    // (9) LARGE inputs, where the slope of the heap bound and super-linear time become visible (built inside the child from (family, n))
+    { let sizes: &[(&str, usize, &str)] = if thorough { &[("tx_outs", 20_000, "parse"), ("tx_outs", 4_000, "ops"), ("extra_0200", 100_000, "ops"), ("extra_0200", 1_000_000, "parse"), ("extra_keys", 30_000, "ops"), ("extra_nonces", 4_000, "ops"),
+              ("tx_extra_0200", 200_000, "parse"), ("block_hashes", 1 << 17, "parse"), ("block_hashes", 1 << 20, "parse"), ("block_hashes", (1 << 20) + 1, "parse"), ("varint_ff", 1 << 20, "parse"), ("tx_ff", 1 << 20, "parse"), ("block_ff", 1 << 22, "parse")] }
+          else { &[("tx_outs", 3_000, "parse"), ("tx_outs", 600, "ops"), ("extra_0200", 100_000, "parse"), ("extra_0200", 20_000, "ops"), ("extra_keys", 5_000, "ops"), ("extra_nonces", 1_000, "ops"), ("tx_extra_0200", 50_000, "parse"),
+              ("block_hashes", 1 << 15, "parse"), ("block_hashes", 1 << 20, "parse"), ("varint_ff", 1 << 20, "parse"), ("tx_ff", 1 << 18, "parse"), ("block_ff", 1 << 20, "parse")] };
+      for (fam, n, mode) in sizes { let len = big_input(fam, *n).map(|x| x.1.len()).unwrap_or(0);
+          let limit = if *mode == "parse" { big_bound(len) } else { bound(len) };
+          iso.run_b(o, format!("c04_big {} {} {}", fam, n, mode), len, true, limit); o.stat("big.inputs"); o.stat_n("big.bytes", len as u64); } }
+
+    // (10) RingCT type Full with MANY inputs and a LONG first ring, the encoding cut shortly after the base part (before / inside
+    //      the MLSAG rows): the decoder may reserve one row, (inputs + 1) keys, at a time — never ring x (inputs + 1) x 32 bytes up
+    //      front (hundreds of MB for a few tens of KB of input). Held to the parse-only bound.
+    { use monero::util::ringct::RctType;
+      let shapes: &[(usize, usize)] = if thorough { &[(500, 1000), (2000, 1000), (1000, 8000), (2000, 4000), (700, 20_000), (1500, 600)] } else { &[(500, 1000), (1000, 8000), (2000, 4000), (1500, 3000)] };
+      for &(nin, ring) in shapes {
+          let inputs: Vec<TxIn> = (0..nin).map(|i| TxIn::ToKey { amount: VarInt(0), key_offsets: (0..(if i == 0 { ring } else { 1 })).map(|_| VarInt(r.below(100))).collect(), k_image: monero::blockdata::transaction::KeyImage { image: Hash(r.arr32()) } }).collect();
+          let prefix = TransactionPrefix { version: VarInt(2), unlock_time: VarInt(0), inputs, outputs: vec![], extra: RawExtraField(vec![]) };
+          let mut b = serialize(&prefix); b.push(gen::rct_num(RctType::Full)); b.extend(gen::varint_bytes(r.u64_boundary()));
+          o.stat("full_wide.shapes"); o.stat_n("full_wide.reserve_if_upfront_MB", ((ring * (nin + 1) * 32) >> 20) as u64);
+          for tail in [0usize, 1, 31, 32, 33, 32 * (nin + 1) - 1, 32 * (nin + 1), 32 * (nin + 1) + 40, 3 * 32 * (nin + 1) + 5] {
+              let mut m = b.clone(); m.extend(r.bytes(tail));
+              iso.run_b(o, format!("c04_ops tx {}", hex(&m)), m.len(), false, big_bound(m.len())); }
+          // the same counts handed to the public decoder directly
+          iso.run_b(o, format!("c04_dec prunable 1 {} 0 {} {}", nin, ring - 1, hex(&r.bytes(64))), 64, false, big_bound(64));
+      } }
+    // (11) operations on PARSED extras with LONG sub-fields: nonce / MinerGate blob of 255, 256, 300, 2000 bytes, additional-key lists of
+    //      8, 9, 63 keys — alone, after a transaction key, followed by an unknown tag (so that try_parse returns Err(fields) and the
+    //      fields kept are the long ones), and inside a miner transaction: `c04_ops extra` / `c04_ops tx` then run serialize(&extra),
+    //      RawExtraField::from (on the Ok and on the Err value), Display, tx_pubkey, tx_additional_pubkeys
+    { let mut tk = vec![1u8]; tk.extend(G_BYTES);
+      let mut subs: Vec<Vec<u8>> = vec![];
+      for len in [0usize, 1, 127, 128, 254, 255, 256, 300, 2000] { for tag in [2u8, 0xde] { let mut e = vec![tag]; e.extend(gen::varint_bytes(len as u64)); e.extend(r.bytes(len)); subs.push(e); } }
+      for n in [0usize, 1, 7, 8, 9, 63, 127, 128] { let mut e = vec![4u8]; e.extend(gen::varint_bytes(n as u64)); for _ in 0..n { e.extend(G_BYTES); } subs.push(e); }
+      for sub in &subs {
+          let variants: Vec<Vec<u8>> = vec![sub.clone(), [tk.clone(), sub.clone()].concat(), [sub.clone(), vec![7u8, 1, 2]].concat(), [tk.clone(), sub.clone(), sub.clone(), vec![0xff]].concat(), [sub.clone(), tk.clone(), vec![0u8; 3]].concat()];
+          for e in &variants {
+              bin(&mut iso, o, "extra", e, true);
+              let mut tx = gen::miner_tx(&mut r); tx.prefix.extra = RawExtraField(e.clone()); let b = serialize(&tx); bin(&mut iso, o, "tx", &b, true); }
+          o.stat("long_subfields"); } }
     let _ = iso.kid.child.kill(); let _ = iso.kid.child.wait();
     o.stat_n("child.respawns", iso.respawns);
-    o.notes.push(format!("every case ran in a child process under catch_unwind, a {} s limit and a counting allocator; claimed bound peak <= 2*CAP + 4 MiB + 160*|input|; non-trivial = inputs that parse (all public operations are then run on the value)", LIMIT_MS / 1000));
+    o.notes.push(format!("every case ran in a child process under catch_unwind, a {} s limit and a counting allocator; claimed bound peak <= 2*CAP + 4 MiB + 160*|input|; non-trivial = inputs that parse (all public operations are then run on the value); c04_big parse-only cases are held to 2*CAP + 64 KiB + 160*|input|; c04_dec = public decoders with caller-chosen usize counts (the family Full + inputs = usize::MAX is guarded: confirmed overflow panic at ringct.rs `1 + inputs`, pending triage)", LIMIT_MS / 1000));
 }
